@@ -193,8 +193,12 @@ FieldSpec(ps, T, dflt) ==
     [] OTHER -> R({}, FALSE)
 
 (* obs: [kind, a, b, inrange, utf8ok, ..]   (a, b: field observations for na, nb) *)
-SpecA(scn) == FieldSpec(PartsOf(scn.form, NameA), scn.target.a, scn.target.dflt)
-SpecB(scn) == FieldSpec(PartsOf(scn.form, NameB), scn.target.b, scn.target.dflt)
+\* a target that refuses unknown fields (`#[serde(deny_unknown_fields)]`, field `deny` of the target): parts under a name the target does not
+\* declare do not fit its shape -- the decode must be an error, silently dropping them is not an option any more
+Deny(scn) == "deny" \in DOMAIN scn.target /\ scn.target.deny
+FieldSpecD(ps, T, dflt, deny) == IF deny /\ T = "none" /\ ps # <<>> THEN R({}, TRUE) ELSE FieldSpec(ps, T, dflt)
+SpecA(scn) == FieldSpecD(PartsOf(scn.form, NameA), scn.target.a, scn.target.dflt, Deny(scn))
+SpecB(scn) == FieldSpecD(PartsOf(scn.form, NameB), scn.target.b, scn.target.dflt, Deny(scn))
 Conforms(scn, obs) ==
   CASE obs.kind = "value" -> /\ obs.a \in SpecA(scn).vals /\ obs.b \in SpecB(scn).vals
                              /\ obs.inrange /\ obs.utf8ok
